@@ -433,7 +433,7 @@ func (fr *Frame) callFuncValue(site ssa.Instruction, c *ssa.CallCommon, fv Val, 
 	fc.sc.Assert(Ge(nn, st.next))
 	if !strings.HasPrefix(rest, "pure") {
 		fc.hvBound = nn
-		fc.havocItems(st, []locItem{{kind: "any"}})
+		fc.havocItems(st, []locItem{{kind: "any-old"}})
 		fc.hvBound = nil
 	}
 	st.ghosts[cnt] = fc.sc.Define(cnt, Add(n, IntLit(1)))
